@@ -201,6 +201,39 @@ def runMsgs (cfg : Cfg N K) (n : N) (k : K) : List (Label N K) → St N K → Li
       | some m => m :: runMsgs cfg n k ls (step cfg l s)
       | none => runMsgs cfg n k ls (step cfg l s)
 
+/-- the call a goroutine's next step makes (`goStep` executes it, or fails the node when it cannot be
+executed) -/
+def goLabel (cfg : Cfg N K) (n d : N) (c : CSt N K) : Option (Label N K) :=
+  if cfg.up n = false ∨ c.st.failed n = true then none else
+  match c.pc n with
+  | .phase1 dests batch stage =>
+      if d ∈ dests then
+        match stage d with
+        | .send => some (.rsend n d (batch d) true)
+        | .delete => some (.rdelete n (batch d))
+        | .done => none
+      else none
+  | .phase2 dests todo =>
+      if d ∈ dests then
+        match todo d with
+        | [] => none
+        | k :: _ => some (fnext cfg c.st n k)
+      else none
+  | _ => none
+
+/-- what the step of thread `t` in `c` calls `RPCSendShard` with, for shard `k` of node `n` -/
+def tidMsg (cfg : Cfg N K) (n : N) (k : K) : Tid N → CSt N K → Option (Nat × Content)
+  | .go n' d, c => if n' = n then (goLabel cfg n' d c).bind (labelMsg cfg c.st n k) else none
+  | .main _, _ => none
+
+/-- the messages node `n` sends for shard `k` along a schedule of the concurrent program -/
+def cmsgs (cfg : Cfg N K) (rkeys fkeys : List K) (n : N) (k : K) : List (Tid N) → CSt N K → List (Nat × Content)
+  | [], _ => []
+  | t :: ts, c =>
+      match cstepT cfg rkeys fkeys t c with
+      | none => cmsgs cfg rkeys fkeys n k ts c
+      | some c' => (tidMsg cfg n k t c).toList ++ cmsgs cfg rkeys fkeys n k ts c'
+
 /-- the label sequence of one failure-free `sendShardFile` of a file with `len` data chunks -/
 def sendLabels (n : N) (k : K) (len : Nat) : List (Label N K) :=
   List.replicate len (.fchunk n k none) ++ [.ffinal n k, .fremove n k]
